@@ -1512,11 +1512,18 @@ static int cfg_parse_internal(cfg_t *cfg, int level, int force_state, cfg_opt_t 
 
 			/* in a free-form (key=value) section a name is a key, whatever
 			 * it looks like; elsewhere it may be a path into a section */
+			errno = 0;
 			if (is_set(CFGF_KEYSTRVAL, cfg->flags) && !is_set(CFGF_IGNORE_UNKNOWN, cfg->flags))
 				opt = *cfg_yylval ? cfg_getopt_leaf(cfg, cfg_yylval) : NULL;
 			else
 				opt = cfg_getopt(cfg, cfg_yylval);
 			if (!opt) {
+				/* a lookup that ran out of memory (a path name is
+				 * copied step by step) has not shown the option to
+				 * be unknown */
+				if (errno == ENOMEM)
+					goto error;
+
 				if (is_set(CFGF_IGNORE_UNKNOWN, cfg->flags)) {
 					state = 10;
 					break;
